@@ -371,6 +371,8 @@ struct Rules {
     calls: Vec<(String, String)>,       // normalised callee path -> replacement path
     callx: Vec<(String, String)>,
     rev_range: bool,
+    vec_for: bool,
+    hoist_fn: bool,
     after_method: Vec<(String, String)>, // method name -> ghost template ($idx = last index expression of the receiver, $recv = receiver)       // normalised callee path -> replacement of the whole call expression
     pub_super: bool,
     macro_call: Vec<(String, String)>,  // macro name -> fn name (args kept verbatim)
@@ -530,6 +532,61 @@ impl<'a, 'ast> Visit<'ast> for FnScan<'a> {
                 kept.push(self.src[start..end].to_string());
                 self.edits.push(Edit { pos: start, end, text, rule: "R4:after-call".into(), kept, oline: 0, seq: self.seq });
                 return;
+            }
+        }
+        // R16: a nested `fn` item (it cannot capture anything) is extracted as a function of its own (@@fn Outer::inner) and
+        // removed from the body of the enclosing function
+        if self.rules.hoist_fn {
+            if let syn::Stmt::Item(syn::Item::Fn(_)) = s {
+                self.push_edit(start, end, String::new(), "R16:hoist-nested-fn", vec![]);
+                return;
+            }
+        }
+        // R14/R15: `for` loops over a Vec/slice place are desugared to `while` loops over an explicit cursor:
+        //   for (i, x) in V.iter().enumerate() { body } -> let i_seq = &V; let mut i_cur: usize = 0; while i_cur < i_seq.len() { let i = i_cur; let x = &i_seq[i_cur]; i_cur += 1; body }
+        //   for x in &V { body } / for x in V { body }  -> let x_seq = &V / V; let mut x_cur: usize = 0; while x_cur < x_seq.len() { let x = &x_seq[x_cur]; x_cur += 1; body }
+        // (only meaningful where V is a Vec or slice, or a shared reference to one; anything else fails to compile)
+        if self.rules.vec_for {
+            if let syn::Stmt::Expr(syn::Expr::ForLoop(fl), _) = s {
+                let body_open = fl.body.brace_token.span.open().byte_range().start;
+                let mut done = false;
+                match (&*fl.pat, &*fl.expr) {
+                    (syn::Pat::Tuple(pt), syn::Expr::MethodCall(en)) if en.method == "enumerate" && en.args.is_empty() && pt.elems.len() == 2 => {
+                        if let (syn::Pat::Ident(pi), syn::Pat::Ident(px), syn::Expr::MethodCall(it)) = (&pt.elems[0], &pt.elems[1], &*en.receiver) {
+                            if it.method == "iter" && it.args.is_empty() {
+                                let (rs, re) = brange(&*it.receiver);
+                                let recv = self.src[rs..re].to_string();
+                                let i = pi.ident.to_string();
+                                let x = px.ident.to_string();
+                                let head = format!("let {i}_seq = &{recv}; let mut {i}_cur: usize = 0; while {i}_cur < {i}_seq.len() ", i = i, recv = recv);
+                                let first = format!(" let {i} = {i}_cur; let {x} = &{i}_seq[{i}_cur]; {i}_cur += 1; ", i = i, x = x);
+                                self.push_edit(start, body_open, head, "R14:enumerate-for-loop", vec![recv, i]);
+                                self.seq += 1;
+                                self.edits.push(Edit { pos: body_open + 1, end: body_open + 1, text: first, rule: "R14:enumerate-for-loop".into(), kept: vec![], oline: 0, seq: 0 });
+                                done = true;
+                            }
+                        }
+                    }
+                    (syn::Pat::Ident(px), e) if !matches!(e, syn::Expr::Range(_) | syn::Expr::MethodCall(_) | syn::Expr::Call(_) | syn::Expr::Paren(_)) => {
+                        let is_mut_ref = matches!(e, syn::Expr::Reference(r) if r.mutability.is_some());
+                        if !is_mut_ref {
+                            let (rs, re) = brange(e);
+                            let recv = self.src[rs..re].to_string();
+                            let x = px.ident.to_string();
+                            let head = format!("let {x}_seq = {recv}; let mut {x}_cur: usize = 0; while {x}_cur < {x}_seq.len() ", x = x, recv = recv);
+                            let first = format!(" let {x} = &{x}_seq[{x}_cur]; {x}_cur += 1; ", x = x);
+                            self.push_edit(start, body_open, head, "R15:vec-for-loop", vec![recv, x]);
+                            self.seq += 1;
+                            self.edits.push(Edit { pos: body_open + 1, end: body_open + 1, text: first, rule: "R15:vec-for-loop".into(), kept: vec![], oline: 0, seq: 0 });
+                            done = true;
+                        }
+                    }
+                    _ => {}
+                }
+                if done {
+                    self.visit_block(&fl.body);
+                    return;
+                }
             }
         }
         // R13: range `for` loops are desugared to `while` loops over an explicit cursor (independent of vstd's iterator specs):
@@ -694,7 +751,7 @@ impl<'a, 'ast> Visit<'ast> for FnScan<'a> {
             return;
         }
         // R8 X.iter().position(F) / rposition(F)
-        if self.rules.position && (name == "position" || name == "rposition") && m.args.len() == 1 {
+        if self.rules.position && (name == "position" || name == "rposition" || name == "any") && m.args.len() == 1 {
             if let syn::Expr::MethodCall(inner) = &*m.receiver {
                 if inner.method == "iter" && inner.args.is_empty() {
                     let (s, e) = brange(m);
@@ -974,6 +1031,8 @@ fn main() {
                     "quiet-print" => rules.quiet_print = rest != "off",
                     "position" => rules.position = rest != "off",
                     "range-for" | "rev-range" => rules.rev_range = rest != "off",
+                    "vec-for" => rules.vec_for = rest != "off",
+                    "hoist-nested-fn" => rules.hoist_fn = rest != "off",
                     "pub-restricted" => rules.pub_super = rest != "off",
                     "drop-attr" => rules.drop_attr = rest.split_whitespace().map(|s| s.to_string()).collect(),
                     "raw-ident" => rules.raw_ident = rest.split_whitespace().map(|s| s.to_string()).collect(),
@@ -1187,6 +1246,39 @@ fn main() {
                             }
                         }
                         _ => {}
+                    }
+                }
+                if found.is_empty() && segs.len() >= 2 {
+                    // nested fn item: [mods..]::[Type::]outer::name  (rule R16 removes it from the body of `outer`)
+                    let outer = segs[segs.len() - 2];
+                    let mut blocks: Vec<syn::Block> = vec![];
+                    for (mp, it) in sf.items.iter() {
+                        match it {
+                            syn::Item::Impl(im) if segs.len() >= 3 => {
+                                let ty = segs[segs.len() - 3];
+                                if type_last_ident(&im.self_ty).as_deref() != Some(ty) || !path_suffix_matches(mp, &segs[..segs.len() - 3]) {
+                                    continue;
+                                }
+                                for ii in im.items.iter() {
+                                    if let syn::ImplItem::Fn(f) = ii {
+                                        if f.sig.ident == outer {
+                                            blocks.push(f.block.clone());
+                                        }
+                                    }
+                                }
+                            }
+                            syn::Item::Fn(f) if f.sig.ident == outer && path_suffix_matches(mp, &segs[..segs.len() - 2]) => blocks.push((*f.block).clone()),
+                            _ => {}
+                        }
+                    }
+                    for b in blocks.iter() {
+                        for st in b.stmts.iter() {
+                            if let syn::Stmt::Item(syn::Item::Fn(f)) = st {
+                                if f.sig.ident == name {
+                                    found.push((None, f.attrs.clone(), f.vis.clone(), f.sig.clone(), (*f.block).clone(), brange(f)));
+                                }
+                            }
+                        }
                     }
                 }
                 if found.len() != 1 {
